@@ -24,7 +24,7 @@ ASSUMPTIONS = [
     'pre-emption points are LINE (or INSTRUCTION) events of code under mindsdb_sql/ and sly/ (optionally sqlalchemy/ and copy.py); '
     'switches inside C code or other modules are not explored; every explored schedule is a feasible CPython (GIL) schedule',
     'the oracle is the current tree\'s own answer for the same op in an otherwise idle hash-seed-0 process: results being *right* is not checked',
-    'memory addresses inside messages and id()-derived t_<id> aliases are renamed before comparison',
+    'memory addresses inside messages of third-party (SQLAlchemy) exceptions are masked before comparison; the library\'s own results and messages are compared as they are',
     'the op hit by an injected abort / MemoryError / RecursionError is not judged; every other op is',
     'a tree that the caller shares between renders (tree histories, twin scenarios) must render the same as a fresh tree; a tree handed to the planner is the planner\'s to consume and its reuse is not judged',
     'the statements that age a process before a capacity-directed run (fresh names / constants) are not judged; prehistory ops of aged-process runs are',
